@@ -10,7 +10,7 @@ static uint64_t* rep_u(Rep* r) { return (uint64_t*)((uint8_t*)r + 8); }
 static NUM* rep_num(Rep* r) { return (NUM*)((uint8_t*)r + 24); }
 /* shape: A = columns or list length, B = rows; values in -RR..RR */
 static void rep_build(Rep* r, int kind, int nA, int nB, int RR) {
-  memset(r, 0, sizeof(Rep)); r->f0 = (uint32_t)kind; rep_n = 0;
+  { Rep z = {0}; *r = z; } r->f0 = (uint32_t)kind; rep_n = 0;
   if (kind == 1) { int64_t sx = nd_range(-RR, RR), sy = nd_range(-RR, RR); rep_u(r)[0] = nA; rep_u(r)[1] = nB; rep_num(r)[0] = NUM_OF_INT(sx); rep_num(r)[1] = NUM_OF_INT(sy);
     for (int i = 0; i < nA; i++) for (int j = 0; j < nB; j++) { rep_ex[rep_n] = i * sx; rep_ey[rep_n] = j * sy; rep_n++; } }
   else if (kind == 2) { int64_t ax = nd_range(-RR, RR), ay = nd_range(-RR, RR), bx = nd_range(-RR, RR), by = nd_range(-RR, RR);
